@@ -98,7 +98,15 @@ func (m *RawManager) Node(id uint32) (node *RawNode, found bool) {
 func (m *RawManager) Nodes() []*RawNode {
 	m.mu.Lock()
 	defer m.mu.Unlock()
-	return m.nodes
+	// return a copy: the node pool is appended to and re-sorted when configurations are created
+	return append([]*RawNode(nil), m.nodes...)
+}
+
+// sortNodes sorts the node pool by ID.
+func (m *RawManager) sortNodes() {
+	m.mu.Lock()
+	defer m.mu.Unlock()
+	OrderedBy(ID).Sort(m.nodes)
 }
 
 // Size returns the number of nodes in the Manager.
